@@ -324,9 +324,6 @@ ERROR:
 
 int reformat_settings_msa(struct msa *msa, int rename, int unalign)
 {
-        for (int i = 0 ;i < msa->numseq;i++){
-                        msa->nsip[i] = i;
-        }
         if(rename){
                 for (int i = 0 ;i < msa->numseq;i++){
                         /* the readers size the name buffer to the name they read */
